@@ -267,6 +267,9 @@ def run(run):
                 # character fields of NUL octets in every subset of a compressed message (position 4 carries the same class in
                 # all subsets; with value seed 1 that class is the "blank" one, here NUL): decoded as the empty string
                 ('nul strings', [[12001, 2001, 1001, 1015, 1008], [1001, 1001, 1001, 1008]], dict(subset_counts=(2, 3), seeds=(1,), compressions=(True,), nul=True)),
+                # templates that END inside an operator construct (204 not cancelled, 221 not used up, a bitmap still being
+                # counted): what wiring keeps from one subset must not reach the next
+                ('open', cat['open'], dict(subset_counts=(2,), fmax=1 if not thorough else 2, seeds=((r + 2) % 5,), compressions=(False,))),
                 ('rnd_plain', cat['rnd_plain'], dict(subset_counts=(1,), seeds=((r + 4) % 5,), compressions=(r % 2 == 1,))),
                 ('rnd_struct', cat['rnd_struct'], dict(subset_counts=(2,) if thorough else (1,), fmax=2, seeds=(r,))),
                 ('rnd_bitmap', cat['rnd_bitmap'], dict(subset_counts=(2,), fmax=2, seeds=((r + 1) % 5,), compressions=(False, True) if thorough else (False,)))]
